@@ -175,6 +175,11 @@ def run_process(case):
     nohidden = hidden and rng.random() < 0.6
     cfg = dict(nd=2, nlev=1, hashsize=16, ncontent=2, content_on_data=True,
                extra_conf=conf_rules + (["nohidden"] if nohidden else []))
+    # a third of the cases keep the content copy of the data disk in a sub-directory of it (the tool's own content, lock and
+    # temporary files are never part of the array, wherever they are)
+    subdir = rng.choice(["_cnt_.d", "_cnt_.d/deeper"]) if idx % 3 == 0 else None
+    if subdir:
+        cfg["content_subdir"] = subdir
     a, fs = scen.make(rng, cfg, "c18")
     try:
         # tree (same on both disks with different content); files vs dirs conflicts resolved by the model
@@ -198,6 +203,13 @@ def run_process(case):
             else:
                 res["inconclusive"] = "sync failed: %s" % r.err[-200:].decode("latin-1")
             return res
+        if subdir:
+            # the copies exist only after the first sync: scan again
+            r = a.cmd("sync", variant=variant)
+            res["counters"]["content_in_subdir_cases"] = 1
+            if r.rc != 0:
+                res["violations"].append(("second-sync-fails-with-content-in-subdir", "sync rc=%s %s" % (r.rc, r.err[-300:].decode("latin-1")), rep))
+                return res
         _r, lfiles, llinks = list_dump(a, variant)
         got = {(t[0].decode(), t[1].decode("latin-1")) for t in lfiles} | {(t[1].decode(), t[2].decode("latin-1")) for t in llinks}
         own = scen.content_copy_subs(a)
